@@ -80,15 +80,62 @@ PROPS = {
         "assumptions": ["unforgeability of ed25519 / ECDSA P-256 for keys whose secret the adversary does not hold", "prost decodes the mutated wire message as the library does"],
         "open_obligations": ["payload_v1_injective without the equal-length hypothesis"],
     },
+    "C03": {
+        "module": "BiscuitModel.Props.C03",
+        "streams": ["atten"],
+        "level_text": "Lean 4 theorems: attenuation_monotone_partial - END TO END over the executable authorizer of the model (Model/Authorizer.authorize: world construction, the fixpoint run, authorizer checks, authority checks, policies, the other blocks' checks): if the token extended by a first-party block is authorized by policy i, the original token's run stays within its limits and no expression fails while the extended token's checks and policies are evaluated, then the original token is authorized by the same policy i; worlds_vis_same (what the original world shows to anyone who does not trust the new block is what the extended world shows them), old_rules_avoid (no rule, check or policy that existed before trusts the appended block). They rest on theorems over the inductive derivability relation of C05 (which the engine computes exactly, run_exact): derives_mono (a block never removes a fact), derives_restrict (every pair derivable with the new block whose origin avoids it was derivable without it: base facts of the block carry its id, its rules stamp its id, old rules cannot see it), visible_facts_unchanged (for every trusted set not containing the new block the visible world is identical), old_scopes_exclude_new (no scope of an earlier block or of the authorizer reaches a newly appended block unless it names a key registered for it; previous stops at the element's own block). Together with C04's check/policy theorems (verdicts are functions of the visible facts) this is the attenuation argument; the end-to-end corollary over the executable authorize is listed as an open obligation. Tie: every generated (token, appended block, authorizer) is authorized with and without the block on the implementation and on the compiled model, full outcomes compared; and an implementation-only oracle checks the property itself (accepted extended => accepted original by the same policy; failed checks only grow) on every case where nobody names the new block's key.",
+        "level_note": "Trusted: Lean kernel (standard axioms), harness generator reach, JSON glue. Stated for evaluations without expression errors and non-binding limits (the property's quantifier). The end-to-end theorem is named _partial because it excludes third-party blocks (which are visible, by design, to the scopes naming their key - old_scopes_exclude_new states the exact condition) and evaluations with expression errors (whose outcome depends on iteration order: C11).",
+        "rule": "atten stream: seeded tokens of 1-3 blocks plus one appended first- or third-party block (facts/rules over the same predicates as the authority, scopes incl. previous, keys shared with earlier blocks), generated authorizers; both tokens authorized on both sides; non-trivial = both outcomes are decisions (ok/nomatch/unauth); distinct = distinct case JSON",
+        "trusted_base": ["harness/src/prog.rs, s_atten.rs, s_authz.rs", "lean/Codec.lean, lean/Driver.lean", "tools/props.py oracle_atten (used only to search for a failing input)"],
+        "assumptions": ["error-free programs under non-binding limits"],
+        "open_obligations": ["attenuation_monotone for third-party blocks not named by any earlier scope (the lemmas old_scopes_exclude_new / derives_restrict cover it; the end-to-end composition is stated for first-party blocks)"],
+    },
+    "C11": {
+        "module": "BiscuitModel.Props.C11",
+        "streams": ["determ"],
+        "level_text": "Lean 4 theorems with the iteration order of the hash stores as an explicit parameter (two orders = two lists with the same members): outcome_order_independent_partial (same facts and rules inserted in any order, both runs Ok, no binding of a check/policy fails => same acceptance, policy index and failed-check list; built on C05 run_order_independent and Lemmas/Congr.decide_same), failed_checks_in_declaration_order, and order_dependent_witness + witness_has_error showing that the full statement (including which error is reported) is false of the code. Tie: every generated case is built and authorized 16 (quick) / 128 (thorough) times from scratch with fresh hash seeds, permuted insertion order of authorizer facts and rules, reload and clone(); the set of distinct outcomes must be a singleton equal to the model's outcome unless the model marks the case as order-dependent (a matching and a failing binding coexist, or two different errors).",
+        "level_note": "Partial by nature: hash seeds are runtime behaviour; the model carries the order as a parameter. The order-dependence of error reporting is a recorded known finding (known_findings.jsonl C11-error-vs-match-order), replayed on every run.",
+        "rule": "determ stream: authz-style cases (half of them with expressions that fail for some bindings), N fresh builds each; non-trivial = case with at least one check or policy whose body is non-empty and a decision outcome; distinct = distinct case JSON",
+        "trusted_base": ["harness/src/s_determ.rs", "RandomState reseeding per HashMap in std (fresh builds give fresh iteration orders)"],
+        "assumptions": ["iteration orders actually exercised are those std's RandomState produces in N builds"],
+    },
+    "C09": {
+        "module": "BiscuitModel.Props.C09",
+        "streams": ["untrusted"],
+        "level_text": "Lean 4 theorems about the checked accessors that stand between untrusted data and an index (Model/Untrusted, Model/Symbols): block_access_checked (Biscuit::block / UnverifiedBiscuit::block succeed exactly for the indices below the block count - for EVERY index), block_access_error, block_access_value, getSymbol_total (a symbol id resolves exactly when it is a default symbol or an index into the table), getSymbol_gap (the ids between the 28 default symbols and the offset 1024 are unknown symbols), getSymbol_beyond, tempSymbol_beyond. Tie: stream untrusted, run in a child process with one flushed outcome line per case (a dead or stuck child gives the case it was on the outcome abort and a new child continues): random and damaged bytes / text into every entry point that takes external data (token bytes and base64, verified, unverified and deprecated; third-party requests and blocks; authorizer snapshots; saved policies; key strings, raw bytes, PEM and DER); correctly signed tokens (the harness signs with the keys it holds) whose block contents are adversarial - out-of-range symbol, key and variable ids incl. the gap 28..1023, malformed op sequences, unknown enum values, empty oneofs, wrong versions, duplicated or emptied tables, deep nesting, unbounded rules - followed by the full sweep on what loads (every block accessor for indices 0..count+2, print, Display, context, revocation ids, serialization, seal, append, third-party request and append, authorizer build, authorize / query under limits, print_world, dump, dump_code, save, snapshot; the same on UnverifiedBiscuit plus verify); adversarial third-party block contents signed by the external key; adversarial authorizer snapshots (iterations, limits, generated facts with unknown symbols, odd origins, adversarial blocks and policies) followed by every operation on what restores; Datalog source with invalid keys, arithmetic edge cases, catastrophic regexes, unbound parameters and nesting from 10 to 40000 levels. The model predicts the verdict of every block accessor for every index of the sweep and of every symbol lookup; the oracle requires a value or an error, never a panic, abort or hang.",
+        "level_note": "Partial by nature: panics, aborts, stack exhaustion and hangs are runtime behaviour which the model cannot exhibit; absence of them is established only as far as the stream reaches. What is proved is that the modelled accessors take the error branch exactly where the Rust code would otherwise index out of range.",
+        "rule": "untrusted stream: corpus (a fixed finding and the known one) first, then seeded cases in the proportions entry points 2 : signed adversarial tokens 4 : third-party contents 1 : snapshots 1 : Datalog source 1, one symbol-lookup probe every 40 cases; non-trivial = anything but an entry-point case that is refused; distinct = distinct case JSON",
+        "trusted_base": ["harness/src/s_untrusted.rs (generator, signing fixture craft_token, child-process isolation and watchdog)", "tools/props.py cmp_untrusted, oracle_untrusted", "lean/Codec.lean, lean/Driver.lean runUntrusted"],
+        "assumptions": [],
+    },
+    "C10": {
+        "module": "BiscuitModel.Props.C10",
+        "streams": ["limits", "engine"],
+        "level_text": "Lean 4 theorems about the engine loop and the authorizer's cumulative accounting: run_ok_within_facts / run_ok_within_iterations (a run that ends Ok held fewer facts than max_facts at every point it was checked, including the facts present before the first iteration, and made fewer productive iterations than max_iterations, also for 0), limit_hit_is_error, run_never_out_of_fuel (the loop ends by itself), timeout_at_checkpoint (abstract clock), and history_within_budget / successful_call_within_budget / exhausted_budget_refuses: over ANY history of authorize/query/query_all calls on one authorizer, including histories where earlier calls hit a limit, every successful call leaves counters within the budget. Tie: generated programs with limit triples at 0, 1, k-1, k, k+1 of the measured need and call histories of length 1-4 are run on the implementation and the compiled model; per call the result, iterations() and fact_count() are compared. Time is exercised with the cfg-guarded fake clock and a `tick` extern function: an implementation-only oracle checks that no call succeeds once the calls together have spent max_time.",
+        "level_note": "Partial for time: the model's clock is abstract (Limits.timeoutAt); wall-clock promptness and the cost of a single iteration are runtime behaviour no model here can exhibit. Time cases are decided by the oracle on the implementation only (search support), not by a theorem. Known finding recorded: the time budget restarts after a failed run.",
+        "rule": "limits stream: corpus (the three fixed findings) first; seeded authz-style programs, first with a generous budget to measure need, then three boundary budgets each, with histories of 1-4 calls; every fourth program also as a fake-clock time case; non-trivial = a history with a limit outcome or with more than one call; distinct = distinct case JSON",
+        "trusted_base": ["harness/src/s_limits.rs", "hook H1 (fake clock, biscuit-auth/src/time.rs under cfg biscuit_verif)", "tools/props.py oracle_limits"],
+        "assumptions": ["time: only what passes through the fake clock is observed"],
+    },
+    "C01": {
+        "module": "BiscuitModel.Props.C01",
+        "streams": ["chain"],
+        "level_text": "Lean 4 theorems over an abstract signature scheme: verify_iff_chain (acceptance under a root key is exactly: structural checks, authority signature under the root over the authority payload, every block signed by the previous next key over a payload containing its bytes, next key, algorithm, version and - version 1 - the actual previous signature and the external signature, external signatures over bytes + previous signature, proof = secret of the last next key or seal over last block + key + signature), and under an explicit unforgeability hypothesis: wrong_root_rejected, accepted_authority_is_honest, accepted_blocks_are_honest (every signature of an accepted token under a protected key is one an honest party made over exactly that payload), accepted_seal_is_honest, truncation_needs_earlier_secret; blockV1_injective / blockV0_injective / seal_payload_injective (the payloads determine every field, for equal lengths of the variable-length fields). The payload layouts in the theorems are regenerated from crypto/mod.rs on every run. Tie: tokens built through the API (both algorithms for root, block and external keys, signature versions 0 and 1, third-party blocks, sealed or not) and EVERY single structured mutation of the decoded wire message (each field of each block, swaps, drops, duplicates, splices between two tokens, proof manipulations, root key id, other root key, ECDSA (r, n-s)) are presented to Biscuit::from, from_base64 and UnverifiedBiscuit::verify; the compiled model predicts accept/reject with the ideal scheme whose valid signatures are exactly those of the honest tokens over the model-computed payloads.",
+        "level_note": "Cryptographic assumptions (unforgeability, signature lengths) are hypotheses of the theorems, not theorems. Open: payload injectivity without the equal-length hypothesis (needs the key/signature length facts of DESIGN Appendix A.3). Known finding recorded: secp256r1 signatures (r, n-s) are accepted.",
+        "rule": "chain stream: seeded histories (1-4 blocks, two independent tokens per case for splicing); every stage presented as is and under another root; all single structured mutations of the last two stages; non-trivial = a mutation case or an honest token with at least one appended block; distinct = distinct case JSON",
+        "trusted_base": ["tools/extract.py (payload layouts, schema field numbers regenerated from crypto/mod.rs and schema.proto)", "harness/src/s_chain.rs (history generator, structured mutations, prost decoding of the wire message)", "ed25519-dalek / p256 verifiers used independently of biscuit-auth to check real signatures over the model's payload bytes", "lean/Codec.lean, lean/Driver.lean"],
+        "assumptions": ["unforgeability of ed25519 / ECDSA P-256 for keys whose secret the adversary does not hold", "prost decodes the mutated wire message as the library does"],
+        "open_obligations": ["payload_v1_injective without the equal-length hypothesis"],
+    },
     "C02": {
         "module": "BiscuitModel.Props.C02",
         "streams": ["chain"],
-        "level_text": "Lean 4 theorems: payloads_eq_spec and the gen_*_eq_spec family (each of the seven payload layouts regenerated from crypto/mod.rs equals the layout written from the Biscuit specification), unknown_signature_version_refused, new_token_verifies / append_verifies / seal_verifies and built_tokens_verify (every token produced by ANY history of build, append, append-third-party and seal operations, with any algorithms, verifies under the issuing root key - induction over the history, assuming only that a signature made with a secret verifies under its public key), the signature-version rule (sigVersion_third_party, _datalog33, _non_ed25519, _ed25519, _never_back, _le_one). Tie: every stage of every generated history must be accepted by Biscuit::from, from_base64 and UnverifiedBiscuit::from+verify, expose the same revocation ids / external keys / root key id / block count as the model, re-serialize to identical bytes, equal the model's own protobuf encoding byte for byte, and every signature in it must verify - with ed25519-dalek / p256 used directly, not through biscuit-auth - over the payload bytes the Lean model computes.",
-        "level_note": "Scheme correctness is a hypothesis. The protobuf decoder is not modelled (encoder only); decode(encode) = id is listed as open.",
+        "level_text": "Lean 4 theorems: wire_round_trip (decoding the protobuf encoding of ANY container - authority block, any number of blocks, third-party signatures, versions, root key id, either proof - gives the container back, for fields that fit their length prefixes; the decoder follows prost: any field order, last occurrence wins, repeated fields accumulate; built on varint_round_trip, decFields_fuel_irrel, decAll_fVarint / decAll_fBytes / decAll_repeated of Lemmas/WireDec; on every honest token of the chain stream the model decoder is run on the presented bytes and must give what prost gives); payloads_eq_spec and the gen_*_eq_spec family (each of the seven payload layouts regenerated from crypto/mod.rs equals the layout written from the Biscuit specification), unknown_signature_version_refused, new_token_verifies / append_verifies / seal_verifies and built_tokens_verify (every token produced by ANY history of build, append, append-third-party and seal operations, with any algorithms, verifies under the issuing root key - induction over the history, assuming only that a signature made with a secret verifies under its public key), the signature-version rule (sigVersion_third_party, _datalog33, _non_ed25519, _ed25519, _never_back, _le_one). Tie: every stage of every generated history must be accepted by Biscuit::from, from_base64 and UnverifiedBiscuit::from+verify, expose the same revocation ids / external keys / root key id / block count as the model, re-serialize to identical bytes, equal the model's own protobuf encoding byte for byte, and every signature in it must verify - with ed25519-dalek / p256 used directly, not through biscuit-auth - over the payload bytes the Lean model computes.",
+        "level_note": "Scheme correctness is a hypothesis. The wire decoder is modelled for the container messages (Model/WireDec); block contents (the Datalog payload) are opaque bytes at this level.",
         "rule": "chain stream (see C01); for C02 the honest stages are the cases that matter: non-trivial = honest stage with at least one appended block",
         "trusted_base": ["tools/extract.py (payload layouts, schema field numbers regenerated from crypto/mod.rs and schema.proto)", "harness/src/s_chain.rs (history generator, structured mutations, prost decoding of the wire message)", "ed25519-dalek / p256 verifiers used independently of biscuit-auth to check real signatures over the model's payload bytes", "lean/Codec.lean, lean/Driver.lean"],
         "assumptions": ["EdDSA / ECDSA correctness"],
-        "open_obligations": ["wire_round_trip: decode (encode c) = some c for the container messages"],
+        "open_obligations": [],
     },
     "C07": {
         "module": "BiscuitModel.Props.C07",
@@ -384,6 +431,8 @@ def cmp_chain(case, impl, model):
             return "re-serializing the deserialized token does not give identical bytes"
         if impl.get("wire_bytes") != model.get("wire_bytes"):
             return "bytes of to_vec() differ from the model's wire encoding"
+        if model.get("decoded_same") is False:
+            return "the model's wire decoder does not read the presented bytes as prost does"
         if "sig_versions" in model:
             actual = [case["subject"]["authority"]["version"] or 0] + [b["version"] or 0 for b in case["subject"]["blocks"]]
             if actual != model["sig_versions"]:
@@ -1158,26 +1207,66 @@ MATCHERS = {"capi-key-buffer": match_capi_key_buffer, "source-nesting": match_so
 
 
 # ---------------------------------------------------------------- shrinking
+SHRINKABLE = {"expr", "print", "params", "capi"}
+
+
 def list_paths(case, stream):
-    """JSON paths of lists that may be shortened"""
+    """JSON paths of the lists of a case that may be shortened (longest lists first)"""
     if stream == "expr":
         return [["vals"]]
-    return []
+    if stream not in SHRINKABLE:
+        return []
+    out = []
+
+    def walk(v, path):
+        if isinstance(v, list):
+            if len(v) >= 1 and path and path[-1] not in ("clo",):
+                out.append(list(path))
+            for i, x in enumerate(v):
+                walk(x, path + [i])
+        elif isinstance(v, dict):
+            for k, x in v.items():
+                walk(x, path + [k])
+
+    root = "ops" if stream == "capi" else ("binds" if stream == "params" else "item")
+    walk(case.get(root), [root])
+    if stream == "params":
+        walk(case.get("item"), ["item"])
+    out.sort(key=lambda p: len(p))
+    return out
 
 
-def shrink(d, rerun, budget=60):
-    """delta debugging on the lists of the case; keeps a candidate when both sides still disagree"""
-    comp = COMPARATORS[d["stream"]]
+def still_fails(pid, stream, cand, im, mo, want_sig):
+    v = COMPARATORS[stream](cand, im, mo)
+    why = v if v not in (None, "skip") else None
+    if why is None:
+        orc = ORACLES.get((pid, stream))
+        why = orc(cand, im) if orc else None
+    if not why:
+        return None
+    d = {"stream": stream, "case": cand, "impl": im, "model": mo, "why": why}
+    return d if signature(d) == want_sig else None
+
+
+def shrink(d, rerun, budget=60, pid=None):
+    """delta debugging on the lists of the case: an element is dropped when the shortened case still fails in the
+    same way (same signature: stream, outcome classes, beginning of the reason) on a fresh run of both sides"""
     best = d
-    for path in list_paths(d["case"], d["stream"]):
-        changed = True
-        while changed and budget > 0:
-            changed = False
+    want = signature(d)
+    progress = True
+    while progress and budget > 0:
+        progress = False
+        for path in list_paths(best["case"], d["stream"]):
             cur = best["case"]
             lst = cur
-            for p in path:
-                lst = lst[p]
-            for i in range(len(lst)):
+            try:
+                for p in path:
+                    lst = lst[p]
+            except (KeyError, IndexError, TypeError):
+                continue
+            for i in reversed(range(len(lst))):
+                if budget <= 0:
+                    break
                 cand = copy.deepcopy(cur)
                 l2 = cand
                 for p in path:
@@ -1187,11 +1276,11 @@ def shrink(d, rerun, budget=60):
                 im, mo = rerun(cand)
                 if im is None:
                     continue
-                v = comp(cand, im, mo)
-                if v not in (None, "skip"):
-                    best = {"stream": d["stream"], "case": cand, "impl": im, "model": mo, "why": v}
-                    changed = True
+                nd = still_fails(pid, d["stream"], cand, im, mo, want)
+                if nd:
+                    best = nd
+                    progress = True
                     break
-                if budget <= 0:
-                    break
+            if progress or budget <= 0:
+                break
     return best
